@@ -149,7 +149,7 @@ def run_growth(case):
     from bioscrape.simulator import ModelCSimInterface, SafeModelCSimInterface, VolumeSSASimulator, py_simulate_model
     import bioscrape.random as brandom
     C = Counter({"growth_cases": 1})
-    viol = []
+    viol = util.ViolList()
     sp = GROWTH_MODELS[case["model"]]
     M = specmod.build_model(sp, "ctor")
     dt, n = case["dt"], case["n"]
